@@ -20,9 +20,9 @@ ID = 'C06'
 HASHSEED_IS_VIOLATION = False
 
 TIERS = {
-    'quick': {'runs': 48000, 'replica_runs': 600, 'hash_seeds': [1, 4242], 'timeout_s': 420, 'shrink_s': 40},
+    'quick': {'runs': 48000, 'replica_runs': 600, 'hash_seeds': [1, 4242], 'timeout_s': 1200, 'shrink_s': 40},
     'thorough': {'runs': 400000, 'replica_runs': 3000, 'hash_seeds': [1, 7, 99, 4242, 31337],
-                 'timeout_s': 3000, 'shrink_s': 120},
+                 'timeout_s': 9000, 'shrink_s': 120},
 }
 
 RULE = ('Each run is one history of <= 12 operations on a live Graph under a model (default / AMR / custom): the '
@@ -122,6 +122,8 @@ def execute(trace):
                         top=top, explicit_top=g._top)
             return False
         res.hit('step.line_events', sb.steps)
+        if sb.steps * 50 > sb.limit:
+            res.hit('probe.encode_used_over_2pct_of_step_budget')
         res.hit('step.encodes')
         res.event(tag, digest.sha(text) if text is not None else digest.canon_exc(err))
         if not g.triples:
